@@ -75,6 +75,7 @@ type bStep struct {
 	Clean bool     `json:"clean,omitempty"`
 	Rerun bool     `json:"rerun,omitempty"` // run again on the same Project without reloading
 	Reuse bool     `json:"reuse,omitempty"` // do not reload: use the Project of the previous build step (REPL session)
+	Wreck bool     `json:"wreck,omitempty"` // failing bodies also remove the build state's temp directory (a clean-style target gone wrong)
 	Via   string   `json:"via,omitempty"`   // "repl": the build is started with the run() builtin and observed through its callback
 	// op "watch": Project.Watch runs on Root while the script edits the tree
 	Script []bStep `json:"script,omitempty"`
@@ -115,6 +116,7 @@ type bWorld struct {
 	hits        map[string]int
 	proj        *Project     // the project of the last build step (for session steps)
 	evalLogged  sync.Map     // names whose evaluating event has been logged in this build
+	wreck       bool         // failing bodies of this build step remove .dawn/build/temp
 	viaCallback atomic.Bool  // a build started with run(callback=...) is under way
 	inflight    atomic.Int64 // evaluating events without their succeeded/failed yet
 	evalSeen    sync.Map
@@ -547,6 +549,10 @@ func (w *bWorld) vexec(thread *starlark.Thread, fn *starlark.Builtin, args starl
 	w.execLog = append(w.execLog, name)
 	w.mu.Unlock()
 	w.crashPoint("body.begin", name)
+	if failing && w.wreck {
+		// ... and takes the directory dawn stages its records in with it
+		os.RemoveAll(filepath.Join(w.dir, ".dawn", "build", "temp"))
+	}
 	if failing {
 		// a failing body leaves a partial output behind
 		os.MkdirAll(filepath.Join(w.dir, "out"), 0755)
@@ -870,6 +876,7 @@ func (w *bWorld) build(st *bStep) {
 	for _, f := range st.Fail {
 		w.fail[f] = true
 	}
+	w.wreck = st.Wreck
 	// a dry run is a load plus a walk: its effect on the persisted state is measured from
 	// before the load
 	preState, preTree := "", ""
